@@ -3,6 +3,7 @@ import GModel.Ops2
 import GModel.Ops3
 import GModel.Ops4
 import GModel.Ops5
+import GModel.Ops6
 namespace G
 /-- run one protocol line -/
 def runLine (tables : List (List (String × Rd String))) (line : String) : String :=
@@ -16,5 +17,5 @@ def runLine (tables : List (List (String × Rd String))) (line : String) : Strin
       | some (out, []) => out
       | _ => "bad-op"
 
-def allTables : List (List (String × Rd String)) := [Ops.table, Ops2.table, Ops3.table, Ops4.table, Ops5.table]
+def allTables : List (List (String × Rd String)) := [Ops.table, Ops2.table, Ops3.table, Ops4.table, Ops5.table, Ops5.table2, Ops6.table]
 end G
